@@ -26,6 +26,11 @@ ASSUMPTIONS = ['parallel_map is called from the main thread of a process (it nee
                'measured from f\'s own finish sequence']
 BUDGET = {'quick': 45, 'thorough': 600}
 WATCHDOG = 20.0
+HANG_LIMIT = 45
+
+
+class HangTimeout(BaseException):
+    pass
 
 
 class BoomError(Exception):
@@ -35,6 +40,23 @@ class BoomError(Exception):
 def out_of(x):
     # unique per element, deliberately NOT monotone in x (a sort by result must not look like a sort by index)
     return ((x * 2654435761) % 1000003, x)
+
+
+class AbortBase(BaseException):
+    """not an Exception subclass"""
+
+
+RAISE_TYPES = {'boom': BoomError, 'stop': StopIteration, 'base': AbortBase, 'key': KeyError}
+
+
+def in_chain(exc, typ):
+    seen = 0
+    while exc is not None and seen < 10:
+        if isinstance(exc, typ):
+            return True
+        exc = exc.__cause__ or exc.__context__
+        seen += 1
+    return False
 
 
 class ReturnedError(Exception):
@@ -69,6 +91,7 @@ class Controller:
         self.chunks = chunks         # list of lists (model of chunk layout)
         self.raise_set = raise_set
         self.out = out_of
+        self.raise_type = BoomError
         self.main_done = False
         self.timeout = False
         self.sequential = threads == 1
@@ -88,7 +111,7 @@ class Controller:
             del self.inflight[x]
             self.cond.notify_all()
         if x in self.raise_set:
-            raise BoomError(x)
+            raise self.raise_type(x)
         return self.out(x)
 
     # controller thread ------------------------------------------------------------------------
@@ -161,12 +184,20 @@ def run_once(cfg, prefix):
     chunks = model_chunks(xs, cfg['impl'], threads, chunksize)
     ctl = Controller(xs, threads, chunks, chooser, raise_set)
     ctl.out = make_out(cfg.get('out', 'tuple'))
+    ctl.raise_type = RAISE_TYPES[cfg.get('raise_type', 'boom')]
     inp = xs if cfg.get('input', 'list') == 'list' else (x for x in xs)
     if cfg.get('input') == 'tuple':
         inp = tuple(xs)
     ctl.thread.start()
     exc = None
     result = None
+    hung = False
+    import signal
+
+    def _alarm(signum, frame):
+        raise HangTimeout()
+    old_handler = signal.signal(signal.SIGALRM, _alarm)
+    signal.alarm(HANG_LIMIT)
     try:
         if cfg['impl'] == 'threading':
             result = tthreading.parallel_map(ctl.f, inp, threads=threads, sort=cfg.get('sort', True),
@@ -176,20 +207,37 @@ def run_once(cfg, prefix):
                                                  sort=cfg.get('sort', True), use_tqdm=False, chunksize=chunksize)
         else:
             result = titer.parallel_map(ctl.f, inp, threads=threads)
+    except HangTimeout:
+        hung = True
     except BaseException as e:  # noqa
         exc = e
     finally:
+        signal.alarm(0)
+        signal.signal(signal.SIGALRM, old_handler)
         ctl.release_all()
         ctl.thread.join(WATCHDOG)
+    if hung:
+        import asyncio
+        asyncio.set_event_loop(asyncio.new_event_loop())      # the old loop still holds the never-completing future
     return {'xs': xs, 'result': result, 'exc': exc, 'calls': dict(ctl.calls), 'finish': list(ctl.finish_seq),
             'windows': list(ctl.window_sizes), 'choices': list(ctl.choices), 'timeout': ctl.timeout,
-            'chunks': chunks, 'raise_set': raise_set}
+            'chunks': chunks, 'raise_set': raise_set, 'hung': hung, 'inflight_at_end': len(ctl.inflight)}
 
 
 def judge(cfg, ob, res: CaseResult):
     xs, result, exc = ob['xs'], ob['result'], ob['exc']
     wit = {'cfg': cfg, 'choices': ob['choices'], 'finish': ob['finish'], 'result': repr(result)[:400],
            'exc': repr(exc)}
+    if ob.get('hung'):
+        started = len(ob['calls'])
+        if len(ob['finish']) == started and not ob['timeout']:
+            # logical part of the verdict: every call of f that was started has finished (raised or returned) and nothing is blocked by the
+            # controller, yet parallel_map did not return for HANG_LIMIT seconds
+            res.violate(f'parallel_map did not return: all {started} started calls of f had finished (raising elements {sorted(ob["raise_set"])}, '
+                        f'raise type {cfg.get("raise_type", "boom")}) and the call was still blocked after {HANG_LIMIT}s', witness=wit, facts={'tag': 'hang'})
+        else:
+            res.inconclusive.append(f'call did not return within {HANG_LIMIT}s while calls of f were still in flight: {cfg}')
+        return
     if ob['timeout']:
         res.inconclusive.append(f'controller watchdog fired for {cfg}')
         return
@@ -201,10 +249,12 @@ def judge(cfg, ob, res: CaseResult):
         if exc is None:
             res.violate(f'f raised for elements {sorted(ob["raise_set"])} but parallel_map returned {repr(result)[:200]}',
                         witness=wit)
-        elif not isinstance(exc, BoomError):
-            res.violate(f'f raised BoomError but parallel_map raised {type(exc).__name__}: {exc}', witness=wit)
+        elif not in_chain(exc, RAISE_TYPES[cfg.get('raise_type', 'boom')]) or (cfg.get('raise_type', 'boom') in ('boom', 'key', 'base') and not isinstance(exc, RAISE_TYPES[cfg.get('raise_type', 'boom')])):
+            # (python's futures cannot carry a StopIteration: it arrives wrapped in a RuntimeError whose cause it is -- accepted; a normal return is not)
+            res.violate(f'f raised {RAISE_TYPES[cfg.get("raise_type", "boom")].__name__} but parallel_map raised {type(exc).__name__}: {exc}', witness=wit)
         else:
             res.count('exceptions_propagated')
+            res.count('exceptions_propagated_' + cfg.get('raise_type', 'boom'))
         if any(c > 1 for c in ob['calls'].values()):
             res.violate(f'f invoked more than once for an element: {ob["calls"]}', witness=wit)
         return
@@ -355,6 +405,9 @@ def cases(tier, seed):
         for n, threads in ((3, 2), (4, 3), (4, 4)):
             for r in range(n):
                 enum_cfgs.append({'impl': impl, 'n': n, 'threads': threads, 'chunk': n, 'raise': [r]})
+                if n == 3:
+                    for rt in ('stop', 'base', 'key'):
+                        enum_cfgs.append({'impl': impl, 'n': n, 'threads': threads, 'chunk': n, 'raise': [r], 'raise_type': rt})
             enum_cfgs.append({'impl': impl, 'n': n, 'threads': threads, 'chunk': 2, 'raise': [0, n - 1]})
     rng.shuffle(enum_cfgs)
     for cfg in enum_cfgs:
@@ -378,6 +431,7 @@ def cases(tier, seed):
             cfg['input'] = 'list'
         if n and rng.random() < 0.2:
             cfg['raise'] = sorted(rng.sample(range(n), rng.choice([1, 1, 2]) if n > 1 else 1))
+            cfg['raise_type'] = rng.choice(['boom', 'boom', 'stop', 'base', 'key'])
         batch.append(cfg)
         if len(batch) == 10:
             yield {'kind': 'runs', 'cfgs': batch}
